@@ -192,7 +192,11 @@ let run_assoc neg typed moveonly nopayload sh ak idA idB ops =
         Printf.sprintf "a%da%d" c.(0).aid c.(1).aid end
     | "cmp" -> let l = c.(ai w 1 land 1) and r = c.(ai w 2 land 1) in
       if ordered then String.concat "" (L.map bstr (Spec.cmp6 (unneg l.l) (unneg r.l)))   (* operator< compares elements, not through key_comp *)
-      else let eq = (if sh = UMMap then WrapEq.mm_eq l.mm r.mm else Spec.perm_eqb l.l r.l) in bstr eq ^ bstr (not eq)
+      else let idz = (fun k -> k) in
+        (* operator== regenerated from unordered_set.h / unordered_map.h / unordered_multimap.h *)
+        let eq = (if sh = UMMap then GenEq.gen_ummap_eq_run idz l.mm r.mm
+                  else if sh = USet then GenEq.gen_uset_eq_run l.l r.l
+                  else GenEq.gen_umap_eq_run idz l.l r.l) in bstr eq ^ bstr (not eq)
     | "erif" -> let m = max 1 (ai w 2) and r = ai w 3 in
       let p k = (((kint k mod m) + m) mod m) = r in
       let before = len (contents x) in
@@ -313,11 +317,24 @@ let run_mmk unique rest =
   let m, r = (match parts with [_; _; [m; r]] -> int_of_string m, int_of_string r | _ -> 0, 0) in
   let keep (k, _, _) = not (m > 0 && k mod m = r) in
   let rec dedupe seen = function [] -> [] | (k, id, v) :: t -> if L.mem k seen then dedupe seen t else (k, id, v) :: dedupe (k :: seen) t in
-  let enc l = L.map (fun (k, id, v) -> (zi (k * 1000 + id), zi v)) (L.filter keep (if unique then dedupe [] l else l)) in
-  let a = enc a and b = enc b in
+  let cls1000 = (fun z -> zi (let x = iz z in if x >= 0 then x / 1000 else - ((- x + 999) / 1000))) in
   let bs x = if x then "1" else "0" in
-  let e1 = Spec.perm_eqb a b and e2 = Spec.perm_eqb b a in
-  Printf.sprintf "%s%s%s%s %d %d" (bs e1) (bs (not e1)) (bs e2) (bs (not e2)) (L.length a) (L.length b)
+  if unique then begin   (* unordered_map with keys {k,id}: key encoded k*1000+id, class k *)
+    let enc l = L.map (fun (k, id, v) -> (zi (k * 1000 + id), zi v)) (L.filter keep (dedupe [] l)) in
+    let a = enc a and b = enc b in
+    let e1 = GenEq.gen_umap_eq_run cls1000 a b and e2 = GenEq.gen_umap_eq_run cls1000 b a in
+    Printf.sprintf "%s%s%s%s %d %d" (bs e1) (bs (not e1)) (bs e2) (bs (not e2)) (L.length a) (L.length b)
+  end else begin         (* unordered_multimap: nested state key -> values, the key object stored once per class; erase_if leaves value-less keys *)
+    let build l = L.fold_left (fun st (k, id, v) ->
+        let key = zi (k * 1000 + id) in
+        let key' = (match L.find_opt (fun (k', _) -> iz (cls1000 k') = k) st with Some (k', _) -> k' | None -> key) in
+        let st' = WrapEq.mm_insert key' (zi v) st in
+        st') [] l in
+    let strip st = if m > 0 then WrapEq.mm_erase_if (fun key -> let k = iz (cls1000 key) in k mod m = r) st else st in
+    let a = strip (build a) and b = strip (build b) in
+    let e1 = GenEq.gen_ummap_eq_run cls1000 a b and e2 = GenEq.gen_ummap_eq_run cls1000 b a in
+    Printf.sprintf "%s%s%s%s %d %d" (bs e1) (bs (not e1)) (bs e2) (bs (not e2)) (L.length (WrapEq.mm_pairs a)) (L.length (WrapEq.mm_pairs b))
+  end
 
 let () = iter_lines (fun line ->
   let segs = L.filter (fun s -> s <> []) (L.map words (String.split_on_char ';' line)) in
